@@ -89,6 +89,8 @@ def cases(tier, seed):
         cs.append(dict(kind='adapt', procs=int(rng.integers(1, 5)), mr=int(rng.integers(0, 5)), e_tol=float(10 ** rng.uniform(-8, -3)), beta=float(rng.choice([0.9, 0.8, 1.0])),
                        lim=lim, dt=float(10 ** rng.uniform(-2, -0.5)), Tend=float(rng.uniform(0.3, 2.0)), maxiter=int(rng.integers(1, 5)), spread=float(rng.uniform(0.5, 3.0)),
                        eseed=int(rng.integers(0, 2**31)), crash=bool(rng.random() < 0.7), _cost=30))
+        # whole-block restarts: every step of the block is redone and the smallest proposal of the block is spread
+        cs[-1]['rffs'] = bool(i % 3 == 1 and cs[-1]['procs'] >= 2)
     for i in range(24 if tier == 'quick' else 300):
         cs.append(dict(kind='variant', variant=['avoid', 'poly', 'poly_nomax', 'extrap', 'avoid', 'poly_nomax'][i % 6], which=(i // 6) % 3, e_tol=float(10 ** rng.uniform(-7, -3.5)), dt=float(10 ** rng.uniform(-2, -0.3)),
                        maxiter=int(rng.integers(2, 6)), mr=int(rng.choice([10, 30])), seed=int(rng.integers(0, 2**31)), _cost=80))
@@ -334,8 +336,9 @@ def run_adapt(case, r):
 
     procs, mr, e_tol, beta, lim, maxiter = case['procs'], case['mr'], case['e_tol'], case['beta'], case['lim'], case['maxiter']
     crash = case['crash']
+    rffs = bool(case.get('rffs'))
     dt0 = case['dt']
-    r.key = f"adapt/{procs}/{mr}/{e_tol:.2e}/{beta}/{sorted(lim.items())}/{dt0:.3e}/{maxiter}/{case['eseed']}"
+    r.key = f"adapt/{'wholeblock/' if rffs else ''}{procs}/{mr}/{e_tol:.2e}/{beta}/{sorted(lim.items())}/{dt0:.3e}/{maxiter}/{case['eseed']}"
     H = make_trace_hook(digests={'pre_step', 'post_step'})
     box = dict(script={}, attempts={})
     cache = {}
@@ -352,7 +355,7 @@ def run_adapt(case, r):
     box['fun'] = fun
     PA, PB, PC = make_probe(-49, 'ProbeAfterAdaptivity'), make_probe(91.5, 'ProbeAfterSlope'), make_probe(92.5, 'ProbeAfterLimiter')
     cc = {Adaptivity: dict(e_tol=e_tol, beta=beta, **lim), ErrorInjector: dict(box=box), PA: dict(box=box), PB: dict(box=box), PC: dict(box=box),
-          BasicRestartingNonMPI: dict(max_restarts=mr, crash_after_max_restarts=crash)}
+          BasicRestartingNonMPI: dict(max_restarts=mr, crash_after_max_restarts=crash, restart_from_first_step=rffs)}
     desc = _base_desc(dt0, maxiter, cc)
     ctrl = controller_nonMPI(procs, dict(logger_level=50, dump_setup=False, hook_class=[H], mssdc_jac=False), desc)
     install_block_counter(ctrl, box)
@@ -445,7 +448,7 @@ def run_adapt(case, r):
     def requested(bi, slot, e):
         return asked.get((bi, slot), (None, None))[0]
 
-    check_blocks(r, tag, blocks, Tend, mr, False, crash, requested, raised)
+    check_blocks(r, tag, blocks, Tend, mr, rffs, crash, requested, raised)
     # next block's dt: spread from the first restarted step (or the last one), capped to reach Tend, never below dt_initial by that cap
     for bi, b in enumerate(blocks[:-1]):
         pre = sorted(b['pre'], key=lambda e: e['slot'])
@@ -454,9 +457,18 @@ def run_adapt(case, r):
             continue
         flags = [bool(e.get('restart')) for e in post]
         k = flags.index(True) if any(flags) else len(post) - 1
-        if (bi, k) not in final:
+        if rffs and any(flags):
+            # whole-block restart: the smallest (limited) proposal among the steps of the block is spread
+            if any((bi, s_) not in final for s_ in range(len(post))):
+                continue
+            dtn = min(final[(bi, s_)] for s_ in range(len(post)))
+            r.count('wholeblock_restarts_with_all_proposals')
+            if min(range(len(post)), key=lambda s_: final[(bi, s_)]) > 0:
+                r.count('wholeblock_minimum_not_in_first_slot')
+        elif (bi, k) not in final:
             continue
-        dtn = final[(bi, k)]
+        else:
+            dtn = final[(bi, k)]
         size = len(pre)
         nxt = sorted(blocks[bi + 1]['pre'], key=lambda e: e['slot'])
         # the spread value may be capped so that the block reaches Tend, but never below the initial step size by that cap;
@@ -464,11 +476,14 @@ def run_adapt(case, r):
         caps = [(Tend - nxt[0]['time']) / size, (Tend - pre[k]['time'] - pre[k]['dt']) / size, (Tend - pre[k]['time']) / size]
         allowed = [dtn] + [max(c, dt0) for c in caps if max(c, dt0) < dtn]
         ok = any(abs(nxt[0]['dt'] - a_) <= 1e-12 * abs(a_) for a_ in allowed)
-        r.check(ok, 'next-block-step-size', f'{tag}: block {bi + 1} runs with dt={nxt[0]["dt"]!r}; the limited proposal of slot {k} in block {bi} is {dtn!r}; admissible values (proposal, or the cap to reach Tend but not below dt_initial={dt0!r}): {allowed}')
+        r.check(ok, 'next-block-step-size', f'{tag}: block {bi + 1} runs with dt={nxt[0]["dt"]!r}; the {"smallest limited proposal of" if rffs and any(flags) else f"limited proposal of slot {k} in"} block {bi} is {dtn!r}; admissible values (proposal, or the cap to reach Tend but not below dt_initial={dt0!r}): {allowed}')
         if any(flags):
-            lower_binds = (dmin > 0 and dtn <= dmin * (1 + 1e-12)) or smin >= 1.0 or dtn <= pre[k]['dt'] * smin * (1 + 1e-12)
-            if not lower_binds:
-                r.check(nxt[0]['dt'] < pre[k]['dt'], 'retry-with-smaller-step', f'{tag}: rejected step of block {bi} (dt={pre[k]["dt"]!r}) is retried with dt={nxt[0]["dt"]!r} although no lower limit binds (limited proposal {dtn!r})')
+            # every step that was itself rejected (its own estimate exceeded the tolerance) must be retried with a smaller step
+            for j in ([s_ for s_ in range(len(post)) if asked.get((bi, s_), (False,))[0] and (bi, s_) in final] if rffs else [k]):
+                dj = final[(bi, j)] if rffs else dtn
+                lower_binds = (dmin > 0 and dj <= dmin * (1 + 1e-12)) or smin >= 1.0 or dj <= pre[j]['dt'] * smin * (1 + 1e-12)
+                if not lower_binds:
+                    r.check(nxt[0]['dt'] < pre[j]['dt'], 'retry-with-smaller-step', f'{tag}: rejected step of block {bi} slot {j} (dt={pre[j]["dt"]!r}) is retried with dt={nxt[0]["dt"]!r} although no lower limit binds (limited proposal {dj!r})')
     # accepted steps respect the tolerance unless the budget was exhausted
     for bi, b in enumerate(blocks):
         pre = sorted(b['pre'], key=lambda e: e['slot'])
@@ -674,6 +689,8 @@ def finalize(agg):
             out.append(f'monitor {k} never evaluated')
     if c.get('restarts_observed', 0) == 0:
         out.append('no restart was observed')
+    if c.get('wholeblock_minimum_not_in_first_slot', 0) == 0:
+        out.append('no whole-block restart whose smallest proposal came from a later slot was judged')
     if c.get('convergence_errors', 0) == 0:
         out.append('no ConvergenceError was observed (budget exhaustion never reached)')
     for k, why in (('variant_accepted_steps', 'no accepted step of an adaptivity variant was judged'), ('variant_rejected_attempts', 'no adaptivity variant rejected an attempt'), ('variant_steps_beyond_maxiter', 'avoid_restarts never continued a step beyond maxiter')):
